@@ -7,6 +7,7 @@ import (
 	"fmt"
 	"math"
 	"sort"
+	"strings"
 	"time"
 
 	"0chain.net/core/config"
@@ -706,6 +707,11 @@ func (c *Chain) transferAmount(sctx bcstate.StateContextI, fromClient, toClient 
 	}
 	if fromClient == toClient {
 		return nil, common.InvalidRequest("from and to client should be different for balance transfer")
+	}
+	// the state trie folds the case of hex digits in its branch nodes, so an id with
+	// upper-case digits addresses the account of its lower-case form: refuse it
+	if fromClient != strings.ToLower(fromClient) || toClient != strings.ToLower(toClient) {
+		return nil, common.InvalidRequest("client id of a balance transfer must be lower-case hex")
 	}
 
 	defer func() {
